@@ -73,7 +73,7 @@ pub fn judge(dir: &Path, sc: &Scenario, obs: &mut Obs) -> Judge {
 
 pub fn run(ctx: &Ctx) {
     sim::init();
-    ctx.set_rule("the real Worker::send_file under a simulated socket: blksize 8..65464 x windowsize 1..65535 x file sizes around block/window boundaries x with/without OACK handshake; peer = conformant model client behind a fault network (<=8 drop/dup/swap/late fates over the first 40 datagrams of either direction) and/or an adversarial script (<=30 events: full/partial/duplicate/stale/future/raw ACKs, delays, lost ACKs, ERROR, garbage, OACK, stray DATA), then honest completion or silence. Oracle: every emitted DATA carries exactly its slice of the file (S1), no block beyond the final one (S2), a transfer that ends with everything acknowledged has sent its short final block (S11), the model client's reassembled copy is byte-identical or incomplete. A wire part downloads from the real tftpd (both port modes, blksize 8..16384, windowsize 1..6) with a model client that sends partial and duplicate ACKs and checks every received DATA against the file slice of its number. Non-trivial = >=2 blocks and (a fault hit, a scripted event was used, or non-default blksize/windowsize); distinct = distinct (scenario, trace shape).");
+    ctx.set_rule("the real Worker::send_file under a simulated socket: blksize 8..65464 x windowsize 1..65535 x file sizes around block/window boundaries x with/without OACK handshake; peer = conformant model client behind a fault network (<=8 drop/dup/swap/late fates over the first 40 datagrams of either direction) and/or an adversarial script (<=30 events: full/partial/duplicate/stale/future/raw ACKs, delays, lost ACKs, ERROR, garbage, OACK, stray DATA), then honest completion or silence. Oracle: every emitted DATA carries exactly its slice of the file (S1), no block beyond the final one (S2), a transfer that ends with everything acknowledged has sent its short final block (S11), the model client's reassembled copy is byte-identical or incomplete. A wire part downloads from the real tftpd (both port modes, blksize 8..16384, windowsize 1..6) with a model client that sends partial and duplicate ACKs and checks every received DATA against the file slice of its number. A relay part runs the real tftpc against the real tftpd through a UDP relay that duplicates, reorders and drops datagrams: the client ends with a byte-identical file or with none. Non-trivial = >=2 blocks and (a fault hit, a scripted event was used, or non-default blksize/windowsize); distinct = distinct (scenario, trace shape).");
     ctx.assume("lying acknowledgements are only generated for transfers without block-number wrap-around (16-bit aliasing is undecidable for any implementation)");
     ctx.assume("the virtual clock hook (cfg rs_tftpd_verif) replaces Instant inside send_file only");
     let dirs = DirPool::new(ctx, "c01");
@@ -83,9 +83,15 @@ pub fn run(ctx: &Ctx) {
     let nh = ctx.tier.pick(5, huge.len());
     enumerate(ctx, "huge-windows", &huge[..nh], false, |c, o| dirs.with(|d| judge(d, c, o)));
     super::c0xw::run_wire(ctx, false);
+    // the real tftpc and the real tftpd with a relay in between that duplicates, reorders and (completion optional) drops datagrams:
+    // the receiving side ends with a byte-identical file or with none
+    super::c04w::run_relay_random(ctx, false);
 }
 
 pub fn replay(ctx: &Ctx, part: &str, case: &Value) -> bool {
+    if part.starts_with("wire-relay-") {
+        return super::c04w::replay(ctx, part, case);
+    }
     if part.starts_with("wire-") {
         return super::c0xw::replay(ctx, part, case);
     }
